@@ -195,7 +195,25 @@ def checkSdt (case impl : List String) : List Fail :=
         (if model.isSome then [⟨"corr", "C13", "model", "new: impl panics, model does not"⟩] else [])
         ++ (if spec.isSome then [⟨"prop", "C13", "reference-machine", "new: impl refuses, the reference machine accepts"⟩] else [])
         ++ (if 36 ≤ len.toNat then [⟨"prop", "C13", "new-refused", s!"declared length {len.toNat}"⟩] else [])
-      | ob0 :: obs =>
+      | ob0 :: obs0 =>
+        -- the final `ser=<hex>,<len>` observation: `to_aml_bytes` and `len()` agree with the slice
+        let (obs, serFails) : List String × List Fail :=
+          match obs0.getLast? with
+          | some l =>
+            if l.startsWith "ser=" then
+              let body := (l.drop 4).toString
+              let lastHex : String := match (obs0.dropLast).getLast? with
+                | some o => if o.startsWith "panic:" then (o.drop 6).toString else o
+                | none => ob0
+              match body.splitOn "," with
+              | [h, n] =>
+                (obs0.dropLast,
+                 (if h ≠ lastHex then [⟨"prop", "C13,C14", "serialisation-differs-from-slice", s!"to_aml_bytes gives {h.length / 2} bytes, as_slice {lastHex.length / 2}"⟩] else [])
+                 ++ (if nat? n ≠ some (lastHex.length / 2) then [⟨"prop", "C13", "len-differs-from-slice", s!"len() = {n}, as_slice has {lastHex.length / 2} bytes"⟩] else []))
+              | _ => (obs0.dropLast, [⟨"corr", "C13", "parse", "ser observation"⟩])
+            else (obs0, [⟨"corr", "C13", "parse", "missing final ser= observation"⟩])
+          | none => (obs0, [⟨"corr", "C13", "parse", "missing final ser= observation"⟩])
+        serFails ++
         if obs.length ≠ opToks.length then bad s!"{opToks.length} ops but {obs.length} observations after new" else
         match sdtParseObs ob0 with
         | some (false, img) =>
